@@ -75,6 +75,8 @@ func (r *Runner) Exec(line string) (out string, emit bool) {
 		return r.execMapping(f[0], f[1:]), true
 	case "codec":
 		return r.execCodec(f[1:]), true
+	case "stat":
+		return r.execStat(f[1:]), true
 	}
 	return "bad-op", true
 }
